@@ -128,6 +128,8 @@ pub fn gen_c01(rng: &mut Rng, _k: usize, _tier: &str) -> J {
     let pool: &[&str] = if from_orders { &OAGG9 } else { &AGG9[..8] };
     let n = 1 + rng.below(3) as usize;
     let mut aggs: Vec<String> = (0..n).map(|i| format!("{} AS a{i}", rng.pick(pool))).collect();
+    // DISTINCT aggregates over values that several privacy units share (whatever DISTINCT is made to mean, one unit moves the result by at most C)
+    if rng.chance(1, 5) { let d = if from_orders { *rng.pick(&["sum(DISTINCT qty)", "count(DISTINCT qty)", "avg(DISTINCT qty)"]) } else { *rng.pick(&["sum(DISTINCT age)", "count(DISTINCT age)", "count(DISTINCT city)"]) }; aggs[0] = format!("{d} AS a0"); }
     let (keys, from): (Vec<&str>, String) = if from_orders { (vec![], "orders".into()) }
         else if joined { aggs = aggs.iter().map(|a| a.replace("income", "users.income").replace("(age", "(users.age").replace("city", "users.city")).collect();
                          (match rng.below(2) { 0 => vec![], _ => vec!["users.city"] }, "users JOIN orders ON users.id = orders.user_id".into()) }
